@@ -189,7 +189,7 @@ def check_doc(acc, src, items):
 
 
 def plan(tier):
-    return 'nav-' + tier
+    return 'nav4-' + tier
 
 
 def shards(tier):
